@@ -19,10 +19,12 @@ EXPLANATION = (
     "select, every exported measure and every filter mutate none of X, y, ranks; features are "
     "shuffled on a copy); R-definite-assignment (no UnboundLocalError path in the selector modules); "
     "R-union-refiltered (a join of per-measure selections is filtered again before it is returned); "
-    "R-colsample-cover (with colsample < 1 the samples cover every feature: k-1 equal chunks and an open-ended last one)."
+    "R-colsample-cover (with colsample < 1 the samples cover every feature: k-1 equal chunks and an open-ended last one); "
+    "R-list-default-by-none (the default measures / filters replace None only: an explicitly empty list is kept); R-filter-greedy also "
+    "requires the kept measurements to be joined to the ranking with how='right' in quantitative_filter, through helpers."
 )
 NOT_DECIDED = "numerical equality of the measures with an independent recomputation; scipy/pandas statistics themselves"
-FLOORS = {"R-rank-desc": 5, "R-filter-greedy": 12, "R-abs-corr": 2, "R-measure-formula": 5, "R-measure-registry": 12, "R-select-pure": 20, "R-definite-assignment": 30, "R-union-refiltered": 1, "R-colsample-cover": 2}
+FLOORS = {"R-rank-desc": 5, "R-filter-greedy": 13, "R-abs-corr": 2, "R-measure-formula": 5, "R-measure-registry": 12, "R-select-pure": 20, "R-definite-assignment": 30, "R-union-refiltered": 1, "R-colsample-cover": 2, "R-list-default-by-none": 8}
 
 
 def abs_scope(repo):
@@ -42,6 +44,12 @@ def check(ctx):
     S.check_union_refiltered(ctx, "R-union-refiltered")
     S.check_colsample_cover(ctx, "R-colsample-cover")
     S.check_filter_wrappers(ctx, "R-measure-registry")
+    # an explicitly empty list of filters / measures is a configuration ("no inter-feature filter"), not
+    # "not given": the defaults replace None only
+    from .truthiness import check_optional_by_none
+
+    inits = [ctx.repo.find_function(f"AutoCarver/selectors/{m}_selector.py::{c}.__init__") for m, c in (("classification", "ClassificationSelector"), ("regression", "RegressionSelector"))]
+    check_optional_by_none(ctx, "R-list-default-by-none", inits, kinds=("list[Callable]", "List[Callable]"))
 
 
 _D7 = "    # Chi2 statistic\n    measurement = {}\n    if chi2_statistic is None:\n        _, measurement = chi2_measure(x, y, **kwargs)\n        chi2_statistic = measurement.get(\"chi2_statistic\")\n\n    # number of observations\n    n_obs = (notna(x) & notna(y)).sum()\n\n    # number of values taken by the features\n    n_mod_x, n_mod_y = x.nunique(), y.nunique()\n    min_n_mod"
@@ -58,6 +66,8 @@ MUTANTS = [
     M("qualitative filter non-strict", [(F_QLF, "        if association.get(f\"{measure}_filter\", 0) > thresh_corr:", "        if association.get(f\"{measure}_filter\", 0) >= thresh_corr:")], "R-filter-greedy", "qualitative: dropped"),
     M("qualitative filter includes the feature itself", [(F_QLF, "    better_features = list(ranks.loc[:feature].index)[:-1]", "    better_features = list(ranks.loc[:feature].index)")], "R-filter-greedy", "qualitative: compared"),
     M("thresh_filter runs last", [(F_SEL, "            dtype: [thresh_filter] + requested_filters[:]", "            dtype: requested_filters[:] + [thresh_filter]")], "R-filter-greedy", "thresh_filter"),
+    M("quantitative filter left-joins the kept measurements (dropped features come back)", [(F_QTF, "        associations = ranks.join(associations, how=\"right\")", "        associations = ranks.join(associations)")], "R-filter-greedy", "only kept"),
+    M("an empty list of filters is replaced by the default filter", [("AutoCarver/selectors/classification_selector.py", "        if quantitative_filters is None:", "        if not quantitative_filters:")], "R-list-default-by-none", "quantitative_filters"),
     M("spearman filter computes pearson", [(F_QTF, "    return quantitative_filter(X, ranks, \"spearman\", thresh_corr, **params)", "    return quantitative_filter(X, ranks, \"pearson\", thresh_corr, **params)")], "R-filter-greedy", "spearman_filter"),
     M("colsample split drops the remainder", [(F_SEL, "                    # adding last sample with all remaining features\n                    feature_samples += [features[chunks * (int(1 / self.colsample) - 1) :]]\n", ""), (F_SEL, "                        for i in range(int(1 / self.colsample) - 1)", "                        for i in range(int(1 / self.colsample))")], "R-colsample-cover"),
     M("tschuprowt counts rows where only x is known", [(F_QLM, "    n_obs = (notna(x) & notna(y)).sum()\n\n    # number of values taken by the features\n    n_mod_x, n_mod_y = x.nunique(), y.nunique()\n\n    # Tschuprow's T", "    n_obs = notna(x).sum()\n\n    # number of values taken by the features\n    n_mod_x, n_mod_y = x.nunique(), y.nunique()\n\n    # Tschuprow's T")], "R-measure-formula", "tschuprowt_measure"),
